@@ -338,6 +338,62 @@ func crashRec(r *core.Report, cs *crashScope, extra func(site ssa.CallInstructio
 				}
 			}
 		}
+		// a walk over a shared graph (schemas are shared through $ref: a DAG, not a tree) that only
+		// knows the objects on its current path visits a shared sub-graph once per path to it
+		for _, f := range cs.funcs {
+			var self []ssa.CallInstruction
+			pathGuard := ""
+			for _, b := range f.Blocks {
+				for _, in := range b.Instrs {
+					ci, ok := in.(ssa.CallInstruction)
+					if !ok || ci.Common().StaticCallee() != f {
+						continue
+					}
+					self = append(self, ci)
+					if g := stackScanGuard(ci); g != "" {
+						pathGuard = g
+					}
+				}
+			}
+			if pathGuard == "" {
+				continue
+			}
+			branching := len(self) >= 2
+			for _, ci := range self {
+				if blockInLoop(ci.Block()) {
+					branching = true
+				}
+			}
+			if !branching {
+				continue
+			}
+			memo := ""
+			// the chain is handed back (what one branch saw, the next one knows)
+			res := f.Signature.Results()
+			for i := 0; i < res.Len(); i++ {
+				if _, isSlice := res.At(i).Type().Underlying().(*types.Slice); isSlice {
+					memo = "the chain is returned and passed on: it is a visited list, not a path"
+				}
+			}
+			// a set that is written and never emptied
+			for _, prm := range f.Params {
+				if _, isMap := prm.Type().Underlying().(*types.Map); isMap {
+					for _, b := range f.Blocks {
+						for _, in := range b.Instrs {
+							if mu, ok := in.(*ssa.MapUpdate); ok && mu.Map == ssa.Value(prm) {
+								memo = "records what it has been through in the set `" + prm.Name() + "`"
+							}
+						}
+					}
+				}
+			}
+			key := "rec:diamond:" + shortFn(f)
+			if memo != "" {
+				edges = append(edges, edge{key, p.Pos(f.Pos()), memo, true, f, f})
+			} else {
+				edges = append(edges, edge{key, p.Pos(f.Pos()), fmt.Sprintf("%s descends into several sub-objects per call and protects itself only with the chain of objects on the current path: an object shared by two sub-objects (schemas are shared through $ref) is walked once per way of reaching it, so a chain of n levels with two references each takes 2^n steps (n = 40 does not end) on a document that is small and valid", shortFn(f)), false, f, f})
+			}
+		}
 		sort.Slice(edges, func(i, j int) bool { return edges[i].key < edges[j].key })
 		for _, e := range edges {
 			if os.Getenv("KINLINT_DEBUG") != "" {
@@ -351,6 +407,16 @@ func crashRec(r *core.Report, cs *crashScope, extra func(site ssa.CallInstructio
 		}
 		r.Extra[cs.id+"_recursive_edges"] = len(edges)
 	})
+}
+
+// blockInLoop: the block can reach itself.
+func blockInLoop(b *ssa.BasicBlock) bool {
+	for _, s := range b.Succs {
+		if s == b || reaches(s, b) {
+			return true
+		}
+	}
+	return false
 }
 
 // instanceProbed: the recursive call is dominated by the success edge of a comma-ok assertion (to a
